@@ -206,7 +206,7 @@ mut("M75", "conn.go", "		caps = append(caps, fmt.Sprintf(\"LIMITS RCPTMAX=%v\", 
 mut("M36", "conn.go", "		c.writeResponse(452, EnhancedCode{4, 5, 3}, fmt.Sprintf(\"Maximum limit of %v recipients reached\", c.server.MaxRecipients))", "		c.writeResponse(452, EnhancedCode{5, 5, 3}, fmt.Sprintf(\"Maximum limit of %v recipients reached\", c.server.MaxRecipients))", ["C04"], "enhanced-code-of-the-same-class", note="452 sent with enhanced code 5.5.3")
 mut("M19", "conn.go", "			enhCode = EnhancedCode{cat, 0, 0}", "			enhCode = EnhancedCode{5, 0, 0}", ["C17"], "unset-enhanced-code-defaults-to-class", note="unset enhanced code always 5.0.0")
 mut("M43", "conn.go", "		c.writeResponse(code, enhCode, err.Error())\n	}\n}", "		c.writeResponse(451, enhCode, err.Error())\n	}\n}", ["C17"], "generic-code", note="writeError ignores the call site's generic code")
-mut("M79", "conn.go", "			dataResult <- err\n			r.CloseWithError(err)", "			c.dataResult <- err\n			r.CloseWithError(err)", ["C20", "C04"], "own:Conn.dataResult", note="regression of fix e638caa: delivery goroutine re-reads Conn.dataResult")
+mut("M79", "conn.go", "			dataResult <- err\n			r.CloseWithError(err)", "			c.dataResult <- err\n			r.CloseWithError(err)", ["C20"], "own:Conn.dataResult", note="regression of fix e638caa: delivery goroutine re-reads Conn.dataResult")
 mut("M80", "server.go", "	s.locker.Lock()\n	s.conns[c] = struct{}{}\n	s.locker.Unlock()", "	s.conns[c] = struct{}{}", ["C20"], "own:Server.conns", note="connection registered without the server lock")
 mut("M81", "conn.go", "func (c *Conn) isClosed() bool {\n	c.locker.Lock()\n	defer c.locker.Unlock()\n	return c.closed\n}", "func (c *Conn) isClosed() bool {\n	return c.closed\n}", ["C20"], "own:Conn.closed", note="closed flag read without the connection lock")
 mut("M20", "server.go", "				if max := 1 * time.Second; tempDelay > max {\n					tempDelay = max\n				}\n", "", ["C20"], "Serve", note="accept back-off cap removed (overflow after ~60 doublings)")
